@@ -117,6 +117,7 @@ class TransferManager(BaseManager):
             name='transfer-management-task'
         )
         self._management_lock: asyncio.Lock = asyncio.Lock()
+        self._download_path_lock: asyncio.Lock = asyncio.Lock()
         self._management_flags: _RequestFlag = _RequestFlag(0)
 
         self._MESSAGE_MAP = build_message_map(self)
@@ -675,12 +676,21 @@ class TransferManager(BaseManager):
         return list(reversed([upload for _, upload in ranking]))
 
     async def _prepare_download_path(self, transfer: Transfer):
-        if transfer.local_path is None:
-            download_path, file_path = self._shares_manager.calculate_download_path(transfer.remote_path)
-            transfer.local_path = os.path.join(download_path, file_path)
+        # Calculating the path and creating the file needs to be done one
+        # download at a time: the path is chosen depending on which files
+        # already exist, 2 downloads of a file with the same name starting at the
+        # same time would otherwise both get the same path
+        async with self._download_path_lock:
+            if transfer.local_path is None:
+                download_path, file_path = self._shares_manager.calculate_download_path(transfer.remote_path)
+                transfer.local_path = os.path.join(download_path, file_path)
 
-        path, _ = os.path.split(transfer.local_path)
-        await self._shares_manager.create_directory(path)
+            path, _ = os.path.split(transfer.local_path)
+            await self._shares_manager.create_directory(path)
+
+            # Reserve the path
+            async with aiofiles.open(transfer.local_path, mode='ab'):
+                pass
 
     async def _calculate_offset(self, transfer: Transfer) -> int:
         """Calculates the offset when downloading a file by inspecting the file
